@@ -245,3 +245,27 @@ func runAPI(op string, args []string) string {
 func apiCase(class, op string, args ...string) Case {
 	return Case{Line: op + " " + strings.Join(args, " "), Impl: runAPI(op, args), Class: class}
 }
+
+// specCase: a specification operation and the projection of the implementation's result it is compared with.
+func specCase(class, line, implProjected string) Case {
+	return Case{Line: line, Impl: implProjected, Class: class, Spec: true}
+}
+
+// okErr projects "ok <val> <p>" / "err:..." onto what a specification that does not speak about error
+// classes and error offsets can say: "ok <val> <p>" / "err". keepVal=false drops the value field.
+func okErr(impl string, keepVal bool) string {
+	f := strings.Fields(impl)
+	if len(f) == 0 {
+		return impl
+	}
+	if f[0] == "ok" && len(f) == 3 {
+		if keepVal {
+			return impl
+		}
+		return "ok " + f[2]
+	}
+	if strings.HasPrefix(f[0], "err") {
+		return "err"
+	}
+	return impl
+}
